@@ -15,6 +15,10 @@ package main
 // accepted ∧ ¬(1) or accepted ∧ ¬(2) is a violation.  Unsigned members never enter (2), under any spelling.
 
 import (
+	pb "github.com/google/go-tdx-guest/proto/tdx"
+	"github.com/google/go-tdx-guest/verify"
+	"google.golang.org/protobuf/proto"
+	"github.com/google/go-tdx-guest/pcs"
 	"bytes"
 	"crypto/ecdsa"
 	"crypto/sha256"
@@ -34,7 +38,7 @@ import (
 	"tdxharness/world"
 )
 
-func init() { drivers["C03"] = c03 }
+func init() { drivers["C03"] = func(r *hx.Run) { c03(r); c03SampleForged(r) } }
 
 // ------------------------------------------------------------------------------------------ oracle: own JSON reading
 
@@ -1172,3 +1176,70 @@ func c03(r *hx.Run) {
 }
 
 func hexN(rng *rand.Rand, n int) string { return hex.EncodeToString(hx.RandBytes(rng, n)) }
+
+
+// c03SampleForged: the repository's genuine Intel sample quote (its PCK chain is Intel's, the trusted root is the embedded one:
+// TrustedRoots nil) verified with collateral checking against endpoints that serve TCB Info and QE Identity tailored to that
+// very quote — every SVN requirement zero, every mask empty, the right FMSPC / PCE-ID / signers' names — but signed under a
+// self-made "Intel SGX Root CA" / "Intel SGX TCB Signing" pair.  Nothing of it chains to the embedded root: not accepted
+// (harness-only lines; the synthetic worlds cannot show this, their PCK chains are not under the embedded root either).
+func c03SampleForged(r *hx.Run) {
+	rng := caseRng(r, 9, 0)
+	t := sampleTime(sampleSPR)
+	base := sampleWorld(sampleSPR, true, false, fiveTimes(t))
+	q := base.Quote
+	blk, _ := pem.Decode(q.SignedData.CertificationData.QeReportCertificationData.PckCertificateChainData.PckCertChain)
+	if blk == nil {
+		panic("sample chain has no PEM block")
+	}
+	leaf, err := x509.ParseCertificate(blk.Bytes)
+	if err != nil {
+		panic(err)
+	}
+	ext, err := pcs.PckCertificateExtensions(leaf)
+	if err != nil {
+		panic(err)
+	}
+	for variant := 0; variant < 3; variant++ {
+		s2 := honestSpec(rng)
+		for _, c := range s2.Certs {
+			c.NotBefore, c.NotAfter = t.AddDate(-1, 0, 0), t.AddDate(5, 0, 0)
+		}
+		fm, _ := hex.DecodeString(ext.FMSPC)
+		s2.Cert("leaf").Sgx.Fmspc = fm
+		s2.Tcb.IssueDate, s2.Tcb.NextUpdate = t.AddDate(0, -1, 0), t.AddDate(0, 1, 0)
+		s2.Qe.IssueDate, s2.Qe.NextUpdate = t.AddDate(0, -1, 0), t.AddDate(0, 1, 0)
+		s2.Tcb.Fmspc, s2.Tcb.PceID = ext.FMSPC, ext.PCEID
+		s2.Tcb.Mrsigner = hex.EncodeToString(q.TdQuoteBody.MrSignerSeam)
+		s2.Tcb.Mask, s2.Tcb.Attributes = strings.Repeat("00", 8), strings.Repeat("00", 8)
+		s2.Tcb.Levels = []world.Level{{Status: "UpToDate"}}
+		s2.Tcb.Identities = []world.ModIdentity{{ID: fmt.Sprintf("TDX_%02x", q.TdQuoteBody.TeeTcbSvn[1]), Levels: []world.ModLevel{{Isvsvn: 0, Status: "UpToDate"}}}}
+		qr := q.SignedData.CertificationData.QeReportCertificationData.QeReport
+		s2.Qe.Mrsigner, s2.Qe.IsvProdID = hex.EncodeToString(qr.MrSigner), int(qr.IsvProdId)
+		s2.Qe.Miscselect, s2.Qe.MiscselectMask = "00000000", "00000000"
+		s2.Qe.Attributes, s2.Qe.AttributesMask = strings.Repeat("00", 16), strings.Repeat("00", 16)
+		s2.Qe.Levels = []world.QeLevel{{Isvsvn: 0, Status: "UpToDate"}}
+		name := "tcb-info-and-qe-identity-forged"
+		w2 := world.Build(s2)
+		o := &verify.Options{GetCollateral: true, Getter: &world.Getter{M: w2.Getter.M}, Now: vTimeSet(fiveTimes(t))}
+		if variant == 1 { // the caller lists ANOTHER root explicitly: still not the forger's
+			o.TrustedRoots = x509.NewCertPool()
+			o.TrustedRoots.AddCert(world.EmbeddedRoot)
+			name += "/embedded-root-listed-explicitly"
+		}
+		if variant == 2 {
+			o.CheckRevocations = true
+			name += "/with-revocation"
+		}
+		var verr error
+		res, _ := hx.Guard(func() string { verr = verify.TdxQuote(proto.Clone(q).(*pb.QuoteV4), o); return "" })
+		obs, fail := "rejected", ""
+		switch {
+		case res == "panic":
+			obs, fail = "panic", "crash in verify.TdxQuote"
+		case verr == nil:
+			obs, fail = "accepted", "the Intel sample quote was accepted with collateral checking on the strength of TCB Info / QE Identity signed under a self-made hierarchy with Intel's names; nothing of that collateral chains to the trusted root (the embedded Intel root)"
+		}
+		r.Emit("# C03.sample "+name, obs, fail, "sample-forged|"+name, true, "sample-forged-collateral")
+	}
+}
